@@ -131,3 +131,15 @@ Theorem retry_fires_exactly_at_deadline : forall policy prep ops,
                if (t0 + policy (failed s) <=? now s + Z.of_N dt)%Z then Connecting else Waiting.
 Proof. exact retry_deadline. Qed.
 Print Assumptions retry_fires_exactly_at_deadline.
+
+(** a lost established connection and a failed attempt always wait for the retry delay: the
+    machine goes to Waiting with a call due policy(failures+1) from now and starts no attempt *)
+Theorem lost_or_failed_connection_waits_for_retry_delay : forall policy prep s,
+  (ms s = Connected -> forall j k, nth_error (conns s) j = Some k ->
+     let s' := fst (step policy prep s (ODrop j)) in
+     ms s' = Waiting /\ timer s' = Some (now s + policy (S (failed s)))%Z /\ pend s' = pend s)
+  /\ (ms s = Connecting -> pend s <> [] ->
+     let s' := fst (step policy prep s OConnFail) in
+     ms s' = Waiting /\ timer s' = Some (now s + policy (S (failed s)))%Z /\ pend s' = removelast (pend s)).
+Proof. exact loss_schedules_retry. Qed.
+Print Assumptions lost_or_failed_connection_waits_for_retry_delay.
